@@ -67,6 +67,8 @@ pub struct Expect {
     pub handovers: Vec<Path>,
     /// reach probes
     pub max_fail_depth: usize,
+    /// unknown keys met under a denying container (whatever the form of the report)
+    pub unknown_denied: usize,
 }
 
 pub struct Model<'a> {
@@ -585,9 +587,11 @@ impl<'a> Model<'a> {
                 None => match deny {
                     Deny::No => {}
                     Deny::Default => {
+                        out.unknown_denied += 1;
                         self.report(out, ExpClass::UnknownKey { key: k.clone(), accepted: accepted.clone() }, loc);
                     }
                     Deny::Custom(n) => {
+                        out.unknown_denied += 1;
                         out.calls.push(ExpCall {
                             fn_id: *n,
                             stage: CallStage::Unknown,
@@ -598,6 +602,19 @@ impl<'a> Model<'a> {
                             failed: false,
                         });
                         self.report(out, ExpClass::UnknownKey { key: k.clone(), accepted: accepted.clone() }, loc);
+                    }
+                    Deny::CustomUser(n) => {
+                        out.unknown_denied += 1;
+                        out.calls.push(ExpCall {
+                            fn_id: *n,
+                            stage: CallStage::Unknown,
+                            arg: None,
+                            loc: Some(loc.clone()),
+                            key: Some(k.clone()),
+                            accepted: Some(accepted.clone()),
+                            failed: false,
+                        });
+                        self.report(out, ExpClass::Foreign { token: user_token(*n, crate::rng::hash_str(k)) }, loc);
                     }
                 },
             }
@@ -617,11 +634,15 @@ impl<'a> Model<'a> {
                             accepted: None,
                             failed: false,
                         });
-                        self.report(
-                            out,
-                            ExpClass::Unexpected { contains: Some(format!("missing_cb#{n}:{key}")) },
-                            loc,
-                        );
+                        if f.missing_user {
+                            self.report(out, ExpClass::Foreign { token: user_token(n, crate::rng::hash_str(&key)) }, loc);
+                        } else {
+                            self.report(
+                                out,
+                                ExpClass::Unexpected { contains: Some(format!("missing_cb#{n}:{key}")) },
+                                loc,
+                            );
+                        }
                     }
                 }
             }
